@@ -301,7 +301,9 @@ def handle (op : String) (args : List String) (impl : Impl) : Option Ans :=
     let m := match toTimeScaleF e ts, toTimeScaleF e2 ts with
       | some a, some b => some (a, b)
       | _, _ => none
-    let sp := match impl with
+    -- the statement is about instants MORE than 100 ns apart: nothing is demanded of a smaller gap (the shrinker reduces
+    -- gaps, and a stored replay must stay inside the quantifier)
+    let sp := if sval d ≤ 100 then noPanic impl else match impl with
       | .ok [x, y] => (match parseEp? x, parseEp? y with
           | some x, some y => verdict [("order_preserved", decide (sval x.dur < sval y.dur))]
           | _, _ => "FAIL:decode")
